@@ -928,7 +928,7 @@ def free_bvs(v, memo=None):
     return frozenset()
 
 
-def early_verdicts_agree(ctx, qualname, oid, valid_lengths, what, opaque=(), max_depth=8):
+def early_verdicts_agree(ctx, qualname, oid, valid_lengths, what, opaque=(), max_depth=8, prefixes=()):
     """A predicate that wraps a decoder may answer before consulting it (`if <cheap test>: return False`) only where no
     valid input exists. `valid_lengths` are input lengths for which the specification has valid inputs: with the length
     bound to each of them the predicate's verdict must not be decided (it has to depend on the content)."""
@@ -945,6 +945,22 @@ def early_verdicts_agree(ctx, qualname, oid, valid_lengths, what, opaque=(), max
         if not accepting:  # no path on which an input of this length is accepted
             bad.append((L, decided_outcome(sm)))
     ev.bind = {}
+    # the same with the beginning of the input known (either letter case of a prefix valid inputs start with): a cheap
+    # test on the raw text must not refuse a spelling the decoder accepts
+    badp = []
+    for pre in prefixes:
+        L = next((x for x in valid_lengths if x > len(pre) + 8), None)
+        if L is None:
+            continue
+        sm = ev.run(fi, {fi.params()[0]: tm.cat([pre, tm.sized("rest_of_input", L - len(pre))])})
+        accepting = [e for e in sm.exits if e.kind == "return" and e.value is not None and e.value is not False and tm.land(list(e.guard)) is not False]
+        if not accepting:
+            badp.append((pre, decided_outcome(sm)))
+    if prefixes:
+        R.check(oid, "DECISION-TABLE", fi, "%s: no input beginning with %s is refused outright" % (fi.name, " / ".join(repr(p_) for p_ in prefixes)), not badp,
+                "%s answers %s for every input that begins with %r, although %s beginning so exist" % (
+                    fi.name, (badp[0][1][1] if badp[0][1][0] == "return" else "with " + str(badp[0][1][1])) if badp else "", badp[0][0] if badp else b"", what),
+                example=("%s spelled %r..." % (what, badp[0][0])) if badp else None)
     R.check(oid, "DECISION-TABLE", fi, "%s: no input length that %s can have is refused outright (%d lengths)" % (fi.name, what, len(valid_lengths)), not bad,
             "%s answers %s for every input of length %s, although %s of that length exist" % (
                 fi.name, (bad[0][1][1] if bad[0][1][0] == "return" else "with " + str(bad[0][1][1])) if bad else "", ", ".join(str(b[0]) for b in bad[:8]), what),
